@@ -461,7 +461,7 @@ result_t World::onRead(unsigned int timeout) {
       return endTimeout();
     }
     // ---- menu ----
-    enum A { DEFAULT, REPLACE, DROP, INSERT, SILENCE, LONGSILENCE, CHUNK, SPLIT, LOSE_QUIET, LOSE_TEL, ECHO_LOST, ECHO_LATE, READERR, ENQ };
+    enum A { DEFAULT, REPLACE, DROP, INSERT, SILENCE, LONGSILENCE, CHUNK, SPLIT, CHUNKHALF, LOSE_QUIET, LOSE_TEL, ECHO_LOST, ECHO_LATE, READERR, ENQ };
     struct Alt { A a; int arg; uint8_t kind; };
     static thread_local std::vector<Alt> alts;
     alts.clear();
@@ -492,6 +492,7 @@ result_t World::onRead(unsigned int timeout) {
         alts.push_back(Alt{CHUNK, 3, K_CHUNK});
         alts.push_back(Alt{CHUNK, 40, K_CHUNK});
         if (sc.enhanced && d.v >= 0x80) alts.push_back(Alt{SPLIT, 0, K_CHUNK});
+        if (sc.enhanced) { alts.push_back(Alt{CHUNKHALF, 1, K_CHUNK}); alts.push_back(Alt{CHUNKHALF, 2, K_CHUNK}); }
       }
     } else {  // D_SILENCE
       if (sc.insertDrop) for (uint8_t x : sc.alphabet) alts.push_back(Alt{INSERT, x, K_DEV});
@@ -619,6 +620,22 @@ result_t World::onRead(unsigned int timeout) {
           Def n = nextDefault(false);
           if (n.k != D_BYTE) break;
           takeByte(); deliverSym(n.v, 0);
+        }
+        return RESULT_OK;
+      }
+      case CHUNKHALF: {
+        // this symbol (and one more) completely plus only the first byte of the following two-byte frame
+        takeByte(); deliverSym(d.v, 0);
+        for (int i = 0; i < ch.arg; i++) {
+          Def n = nextDefault(false);
+          if (n.k != D_BYTE) break;
+          bool last = (i + 1 == ch.arg);
+          takeByte(); deliverSym(n.v, 0);
+          if (last && n.v >= 0x80) {
+            pendingSecond = tr->m_buf.back(); pendingTag = tr->m_tag.back();
+            tr->m_buf.pop_back(); tr->m_tag.pop_back();
+            hasPendingSecond = true;
+          }
         }
         return RESULT_OK;
       }
